@@ -1482,6 +1482,9 @@ class Macro:
                         f"Invalid concatenation: {lex.string}",
                     )
                 tok.prev_white = last.prev_white
+                # The result of a paste is never a parameter, even if it
+                # happens to be spelled like one.
+                tok.pasted = True
             elif _is_symbol(tok, "#"):
                 if isinstance(self, MacroFunction):
                     self.has_strcat = True
@@ -1693,9 +1696,10 @@ class MacroFunction(Macro):
             # If a token matches an argument, it is substituted;
             # otherwise it passes through
             try:
-                if id(token) in from_args or not isinstance(
-                    token,
-                    Identifier,
+                if (
+                    id(token) in from_args
+                    or not isinstance(token, Identifier)
+                    or getattr(token, "pasted", False)
                 ):
                     raise ValueError
                 substitution = input_args[self.args.index(token.token)][1]
